@@ -159,35 +159,9 @@ def check(ctx):
     ctx.rule("R05.7", "the reader's dt > 0 mask only drops unfilled buffer tail: buffers are zero-initialised", 2)
     frs = repo.func(RUNNER, "Runner._run_stage")
 
-    # R05.1 -------------------------------------------------------------------------
-    cfg, ev, problems, prev, visits = typestate(frs)
-    ctx.note("cfg", {"nodes": len(cfg.nodes), "edges": sum(len(v) for v in cfg.succ.values()),
-                     "events": {k: sum(1 for x in ev.values() if x == k) for k in set(ev.values())}})
-    seen_keys = set()
-    if not problems:
-        ctx.ob("R05.1", "all SAVE/UPDATE/ADVANCE/LABEL events reached only in their required typestate", True,
-               detail={"states_at_save": {f"L{cfg.nodes[n].line}": sorted(s) for n, s in visits.items() if ev.get(n) == "SAVE"}},
-               where=frs.fq, construct="typestate of _run_stage")
-    for (src, succ, lab, bad) in problems:
-        n = cfg.nodes[succ]
-        key = (ev.get(succ), norm(n.ast)[:80], bad)
-        if key in seen_keys:
-            continue
-        seen_keys.add(key)
-        w = witness(cfg, prev, src, (succ, lab))
-        ctx.ob("R05.1", f"{ev.get(succ)} at L{n.line} in state {src[1]}", False, detail={"why": bad, "path": w},
-               where=frs.fq, construct=f"{ev.get(succ)}: {norm(n.ast)[:80]} [{bad}]", loc=loc(frs, n.ast),
-               message=f"{bad}: `{norm(n.ast)[:70]}` is reachable in typestate {src[1]}",
-               consequence="the final frame (when N % save_every != 0) is labelled step N but holds the state after N+1 updates; "
-                           "frames with the same label differ between runs with different save_every",
-               witness={"path": w, "example": "dt_init=1e-3 fixed, solve_time=0.0105, save_every=4: frame 'step 11' equals frame 'step 12' of a save_every=2 run"})
-
-    stop_test(ctx, frs, cfg, ev)
-    final_step_saved_once(ctx, frs, cfg, ev)
-    save_points(ctx, frs)
+    loop_rules(ctx, frs)
     records(ctx, frs)
     ranks(ctx)
-    thermalisation(ctx)
     from ..report import Shared
     from . import c12
     sh = Shared(ctx, {"R12.3": "R05.12", "R12.4": "R05.12"},
@@ -316,41 +290,7 @@ def records(ctx, frs):
                construct=f"running_state.append under {tag}", loc=loc(fu, fu.node),
                message=f"records with {tag}: {problems.get(tag)}",
                consequence="a per-step record appears twice/never per step, or is written into a buffer that was not allocated")
-    # cursor / clear in _run_stage
-    fnr = frs.node
-    pmr = parent_map(fnr)
-    incs = [n for n in own_nodes(fnr) if isinstance(n, ast.AugAssign) and norm(n.target) == "self.running_state.step"]
-    adv = [n for n in own_nodes(fnr) if isinstance(n, ast.AugAssign) and norm(n.target) == "self.time"]
-    same_block = len(incs) == 1 and len(adv) == 1 and pmr[id(incs[0])][0] is pmr[id(adv[0])][0] and norm(incs[0].value) == "1"
-    ctx.ob("R05.3", "record cursor advances by one exactly where the clock advances", same_block,
-           detail={"cursor": [norm(i) for i in incs], "clock": [norm(a) for a in adv]}, where=frs.fq,
-           construct="running_state.step += 1", loc=loc(frs, incs[0]) if incs else "",
-           message="the record cursor is not advanced together with the clock",
-           consequence="records of two steps overwrite each other or leave gaps")
-    clears = [n for n in own_nodes(fnr) if isinstance(n, ast.Expr) and isinstance(n.value, ast.Call)
-              and norm(n.value.func) == "self.running_state.clear"]
-    saves = [n for n in own_nodes(fnr) if isinstance(n, ast.Expr) and isinstance(n.value, ast.Call) and norm(n.value.func) in SAVE_CALLS
-             and any(isinstance(g, ast.For) for g, _ in guards_of(fnr, n, pmr))]
-    ok = len(clears) == 1 and len(saves) == 1
-    if ok:
-        gc = [(id(g), br) for g, br in guards_of(fnr, clears[0], pmr) if isinstance(g, ast.If)]
-        gsv = [(id(g), br) for g, br in guards_of(fnr, saves[0], pmr) if isinstance(g, ast.If) and norm(g.test) != "save"]
-        ok = gc == gsv and clears[0].lineno > saves[0].lineno
-    ctx.ob("R05.3", "the record buffer is cleared exactly at save points, after the save", ok,
-           detail={"clear": [f"L{c.lineno}" for c in clears]}, where=frs.fq, construct="running_state.clear()",
-           loc=loc(frs, clears[0]) if clears else "", message="running_state.clear() is not control-equivalent to the in-loop save",
-           consequence="records are dropped before being written, or written twice")
-    fi = repo.func(RUNNER, "Runner.__init__")
-    rs = [n for n in own_nodes(fi.node) if isinstance(n, ast.Call) and norm(n.func) == "RunningState"]
-    ok = len(rs) == 1 and len(rs[0].args) >= 2 and norm(rs[0].args[1]) in ("self.options.save_every", "options.save_every")
-    ctx.ob("R05.3", "buffer length == save_every (updates between two clears)", ok, detail=[norm(r) for r in rs], where=fi.fq,
-           construct="RunningState(...) buffer size", message=f"{[norm(r) for r in rs]}",
-           consequence="IndexError after buffer_size steps, or unfilled columns recorded")
 
-
-# ---------------------------------------------------------------------------
-# R05.4 rank agreement on the abstract shape domain
-# ---------------------------------------------------------------------------
 
 def abs_transform(stmts, var: str, shape: Tuple[str, ...], value_expr: ast.expr) -> Optional[Tuple[str, ...]]:
     """Abstractly evaluate the expression stored into the record group for an input buffer of `shape`."""
@@ -819,3 +759,69 @@ def frame_order(ctx):
                                    "Solution.times and dynamics no longer match the frame labels")
     if n < 2:
         raise AnalysisError(f"only {n} frame iterations found in the record readers")
+
+
+def loop_rules(ctx, frs):
+    """R05.1, R05.2, R05.3 (buffer), R05.5, R05.8, R05.9 as predicates on the traces of the simulation loop (pvs/run_trace.py:
+    Runner._run_stage followed for 91 scenarios, Runner.run for 6): what is labelled, updated, advanced, saved and cleared, in
+    which order - however the loop is written."""
+    from ..run_rules import loop_verdicts, run_verdicts
+    repo = ctx.repo
+    V = loop_verdicts(repo)
+    R = run_verdicts(repo)
+    ctx.note("loop_trace_scenarios", V["_scenarios"])
+    if V.get("_notes"):
+        ctx.note("loop_trace_notes", V["_notes"][:4])
+    fr = repo.func(RUNNER, "Runner.run")
+    ctx.ob("R05.1", "every frame labelled (step s, time t) holds the state after exactly s updates with t = s * dt, in every uninterrupted and every "
+                    "cancelled scenario (interrupt in the n-th update / n-th save)", not V["label_content"], detail=V["label_content"][:4],
+           where=frs.fq, construct="typestate of _run_stage", loc=loc(frs, frs.node), message=f"{V['label_content'][:2]}",
+           consequence="the final frame (when N % save_every != 0) is labelled step N but holds the state after N+1 updates; "
+                       "frames with the same label differ between runs with different save_every",
+           witness={"scenarios": V["label_content"][:4]})
+    ctx.ob("R05.1", "after pause + resume (pause_on_interrupt, answer 'y') the step labels still count the updates applied", not V["label_content_resume"],
+           detail=V["label_content_resume"][:4], where=frs.fq, construct="step label after resuming from an interrupted step", loc=loc(frs, frs.node),
+           message=f"after an interrupted step is resumed the step label runs ahead of the updates applied: {V['label_content_resume'][:1]}",
+           consequence="every frame saved after the resume is labelled with a step one (or more) larger than the number of updates and dt records it "
+                       "has seen: Solution.times (prefix sums of dt indexed by step) disagrees with the times stamped on the frames",
+           witness={"input": "pause_on_interrupt=True, Ctrl-C during an update, answer 'y' (findings/f19_resume_step_drift.py)",
+                    "scenarios": V["label_content_resume"][:3]})
+    ctx.ob("R05.8", "the run stops at the first step whose time reaches the requested time (N updates for N * dt, for N = 1, 3, 4, 5, 6)",
+           not V["stop"], detail=V["stop"][:4], where=frs.fq, construct="stop predicate", loc=loc(frs, frs.node), message=f"{V['stop'][:2]}",
+           consequence="the run performs one step too many (or too few) when a step lands exactly on the requested time")
+    ctx.ob("R05.8", "the clock advances once per update by the dt the update returned", not V["clock"], detail=V["clock"][:4], where=frs.fq,
+           construct="stop test position", loc=loc(frs, frs.node), message=f"{V['clock'][:2]}",
+           consequence="one update beyond the requested time is computed")
+    ctx.ob("R05.9", "frames are saved at steps 0, k, 2k, ... and at the final step, each exactly once (k = 1, 2, 3; both residues of N mod k)",
+           not V["final_once"], detail=V["final_once"][:4], where=frs.fq, construct="saves on the last iteration", loc=loc(frs, frs.node),
+           message=f"{V['final_once'][:2]}", consequence="the final step is saved twice or not at all for some (N, save_every)")
+    ctx.ob("R05.9", "a cancelled stage ends with the frame of the interrupted step, saved once", not V["cancel"], detail=V["cancel"][:4], where=frs.fq,
+           construct="saves after a cancellation", loc=loc(frs, frs.node), message=f"{V['cancel'][:2]}",
+           consequence="the partial solution misses its last frame or holds it twice")
+    ctx.ob("R05.2", "nothing is saved when the stage runs with save=False", not V["save_flag"], detail=V["save_flag"][:4], where=frs.fq,
+           construct="save flag", loc=loc(frs, frs.node), message=f"{V['save_flag'][:2]}", consequence="thermalisation steps are recorded")
+    ctx.ob("R05.2", "each frame handed to the writer is a container built for that frame; the update receives the state label and the named fields",
+           not V["fresh_data"] and not V["update_args"], detail=(V["fresh_data"] + V["update_args"])[:4], where=frs.fq, construct="save sites",
+           loc=loc(frs, frs.node), message=f"{(V['fresh_data'] + V['update_args'])[:2]}",
+           consequence="a step is recorded twice or the final step is never recorded")
+    ctx.ob("R05.2", "frame 0 is written without records, every later frame with the record buffer", not V["first_frame_records"],
+           detail=V["first_frame_records"][:4], where=frs.fq, construct="save_step argument", loc=loc(frs, frs.node),
+           message=f"{V['first_frame_records'][:2]}", consequence="frame 0 handling (no records) is applied to the wrong frame")
+    ctx.ob("R05.3", "record cursor advances by one exactly where the clock advances", not V["cursor"], detail=V["cursor"][:4], where=frs.fq,
+           construct="running_state.step += 1", loc=loc(frs, frs.node), message=f"the record cursor is not advanced together with the clock: {V['cursor'][:1]}",
+           consequence="records of two steps overwrite each other or leave gaps")
+    ctx.ob("R05.3", "the record buffer is cleared exactly at save points, after the save", not V["clear"], detail=V["clear"][:4], where=frs.fq,
+           construct="running_state.clear()", loc=loc(frs, frs.node), message=f"{V['clear'][:2]}",
+           consequence="records are dropped before being written, or written twice")
+    ctx.ob("R05.5", "thermalisation stage: save=False until skip_time; recorded stage: save=True until solve_time", not R["thermal_unsaved"],
+           detail=R["thermal_unsaved"][:4], where=fr.fq, construct="stages of Runner.run", loc=loc(fr, fr.node), message=f"{R['thermal_unsaved'][:2]}",
+           consequence="thermalisation steps are recorded, or the recorded stage is not")
+    ctx.ob("R05.5", "clock and labels are reset between the stages", not R["clock_reset"], detail=R["clock_reset"][:4], where=fr.fq,
+           construct="reset between stages", loc=loc(fr, fr.node), message=f"{R['clock_reset'][:2]}",
+           consequence="recorded time does not restart from zero after thermalisation")
+    ctx.ob("R05.5", "the record buffer is cleared after thermalisation", not R["buffer_reset"], detail=R["buffer_reset"][:4], where=fr.fq,
+           construct="clear after thermalisation", loc=loc(fr, fr.node), message=f"{R['buffer_reset'][:2]}",
+           consequence="thermalisation records leak into the first recorded frame")
+    ctx.ob("R05.5", "run() returns False only for a cancelled thermalisation", not R["result"], detail=R["result"][:4], where=fr.fq,
+           construct="result of Runner.run", loc=loc(fr, fr.node), message=f"{R['result'][:2]}",
+           consequence="a cancelled thermalisation is taken for a finished run (or a partial solution is dropped)")
